@@ -58,7 +58,7 @@ pub fn build_input(rng: &mut Rng, max_lg: u8) -> CpcInput {
     let lg_k = rng.range(4, max_lg as u64) as u8;
     let flavor = rng.below(5) as u8;
     let c = coupons_for_flavor(rng, lg_k, flavor).min(m::max_coupons_in_envelope(lg_k));
-    let coupons = m::natural_order(rng, lg_k, c);
+    let mut coupons = m::natural_order(rng, lg_k, c);
     let kind = rng.below(3);
     let (sk, how) = match kind {
         0 => (sketch_from(lg_k, &coupons), "fresh"),
@@ -68,10 +68,17 @@ pub fn build_input(rng: &mut Rng, max_lg: u8) -> CpcInput {
             (CpcSketch::deserialize(&bytes).expect("round trip of a library-written CPC image failed"), "deserialized")
         }
         _ => {
-            let (a, b) = coupons.split_at(coupons.len() / 2);
+            // two independent natural streams (each inside the envelope on its own), united
+            let a = m::natural_order(rng, lg_k, c / 2);
+            let b = m::natural_order(rng, lg_k, c - c / 2);
             let mut u = CpcUnion::new(lg_k);
-            u.update(&sketch_from(lg_k, a));
-            u.update(&sketch_from(lg_k, b));
+            u.update(&sketch_from(lg_k, &a));
+            u.update(&sketch_from(lg_k, &b));
+            let mut all = a;
+            all.extend(b);
+            all.sort_unstable();
+            all.dedup();
+            coupons = all;
             (u.to_sketch(), "union-result")
         }
     };
